@@ -366,6 +366,7 @@ where
 {
     let repc = RefCell::new(rep);
     let mut i: u64 = 0;
+    let mut done: u64 = 0;
     let w = ctx.workers.max(1) as u64;
     let mut clean = true;
     for case in cases {
@@ -374,6 +375,7 @@ where
         if !mine {
             continue;
         }
+        done += 1;
         if let Some((sig, detail)) = eval_filtered(ctx, &repc, engine, &case, &f, true) {
             repc.borrow_mut().failures.push(Failure { sig, detail, engine: engine.to_string(), case: serde_json::to_value(&case).unwrap(), env: nun_env() });
             clean = false;
@@ -384,7 +386,8 @@ where
     if clean {
         rep.exhaustive.push(engine.to_string());
     }
-    rep.count(&format!("enumerated.{}", engine), i);
+    // cases evaluated by THIS worker: the driver sums the workers' counters, the sum is the size of the sub-space
+    rep.count(&format!("enumerated.{}", engine), done);
     clean
 }
 
